@@ -1,20 +1,34 @@
 package props
 
 import (
+	"astverif/errflow"
 	"astverif/layout"
+	"astverif/muxstate"
 )
 
 func init() { register("C04", "other", c04) }
 
 func c04(c *Ctx) {
 	r := c.R
-	r.Explanation = "A1: per writer function, on every success path (loops summarised symbolically), 8 × returned byte count = bits handed to the BitsWriter."
-	r.RuleText = "one obligation per writer function (A1)"
-	r.Trusted = []string{"go/types + go/ssa", "astikit BitsWriter summary"}
+	r.Explanation = "Decided for every flag valuation, length and loop trip count at once (path-sensitive abstract interpretation over go/ssa with symbolic loop summation and if-conversion; no solver): " +
+		"A1 — on every success path of every function that writes to a BitsWriter and returns a byte count, 8 × returned count = bits handed to the writer (24 functions; loops such as padding, stuffing, program/stream/descriptor loops are summarised in closed form, a loop whose trip count is not provably non-negative is additionally explored as 'not entered'); " +
+		"A1b — writePacket returns exactly targetPacketSize on every success path (so with A1 it emits exactly 8·188 bits: padded, never longer) and its first emission is the sync byte 0x47; " +
+		"A0 — every Write/WriteN operand has a type and width the BitsWriter accepts; " +
+		"S5 — validate before emit: inside writePacket no locally constructed rejection is reachable after an emission, and in WriteData the unknown-PID rejection precedes the table retransmission and every packet write (shared with C17 'first'); " +
+		"E5 — the API functions' byte counts are sums of the counts their callees report. " +
+		"NOT decided: acceptance of every emitted packet by an independent decoder for all stuffing cases (0/1/2 free bytes arithmetic of WriteData), payload_unit_start placement over histories."
+	r.RuleText = "one obligation per writer function (A1), per success outcome class of writePacket (A1b), per offending emission (A0), per anchor function (S5), per API return (E5)"
+	r.Trusted = []string{"go/types + go/ssa (x/tools v0.29.0)", "astikit BitsWriter/BitsWriterBatch summary: bits per operand type, WriteN emits the low n bits, WriteBytesN exactly n bytes",
+		"documented domains: lengths fit their fields (no uint8 wrap), pointer_field >= 0"}
 	ck := layout.New(c.P)
 	ck.A1(r)
+	ck.ExactSize(r, "writePacket", "targetPacketSize", 0x47)
+	ck.NoEmitBeforeLocalError(r, "writePacket")
 	ck.ReportAPI(r)
 	for _, d := range ck.IP.Diag {
 		r.Unknown("A0", "diag/"+d, "", d)
 	}
+	muxstate.First(c.P, r)
+	errflow.E5(c.P, r, apiCountFuncs)
+	r.Floor("A1", "writer functions analysed", r.Counters["writer_functions"], 20)
 }
